@@ -280,6 +280,9 @@ func oneQuery(run *vlib.Run, sd *gen.SchemaDesc, mono *graphql.Schema, p *partit
 	w := gen.NewWorld(uint64(r.Int63()), 4+r.Intn(10), 3+r.Intn(6))
 	o := gen.DefaultGenOpts()
 	o.MaxDepth = 3 + r.Intn(3)
+	if r.Intn(3) == 0 {
+		o = gen.MergeHeavy(o)
+	}
 	o.UnionSecondFragment = os.Getenv("C06_NO_UNION2") == ""
 	if os.Getenv("C06_NO_UNIONS") != "" {
 		o.NoUnions = true
